@@ -24,8 +24,8 @@ from elementpath.xpath_nodes import XPathNode, ElementNode, DocumentNode
 
 from elementpath.exceptions import ElementPathTypeError
 from elementpath.helpers import node_position
-from elementpath.xpath_context import XPathSchemaContext
-from elementpath.xpath_tokens import XPathToken, NameToken, VariableToken, \
+from elementpath.xpath_context import XPathContext, XPathSchemaContext
+from elementpath.xpath_tokens import XPathToken, XPathAxis, NameToken, VariableToken, \
     ContextItemToken, AsteriskToken, ParentShortcutToken
 
 from .xpath1_parser import XPath1Parser
@@ -425,6 +425,33 @@ def select__predicate(self: XPathToken, context: ta.ContextType = None) -> Itera
                 yield context.item
         elif self.boolean_value(predicate):
             yield context.item
+
+
+@method('[')
+def select_with_focus__predicate(self: XPathToken, context: XPathContext) \
+        -> Iterator[ta.ItemType]:
+    # All the predicates of a step filter with respect to the axis of the step: for
+    # a reverse axis also the items selected by a previous predicate have a proximity
+    # position that counts in reverse document order (e.g. ancestor::*[@x][1]).
+    step = self[0]
+    while step.symbol == '[' and step.label == 'operator' and len(step) == 2:
+        step = step[0]
+
+    if not isinstance(step, XPathAxis) or not step.reverse_axis:
+        yield from XPathToken.select_with_focus(self, context)
+        return
+
+    status = context.item, context.size, context.position, context.axis
+    results = [x for x in self.select(context)]
+    context.item, context.size, context.position, context.axis = status
+    context.axis = None
+
+    context.size = context.position = len(results)
+    for context.item in results:
+        yield context.item
+        context.position -= 1
+
+    context.item, context.size, context.position, context.axis = status
 
 
 ###
